@@ -140,11 +140,6 @@ class SchemaGen:
 				self.features.add('byte-array')
 			elif pick < 0.75:
 				element, keys = self.element_type()
-				is_alias = any(element == alias for alias, _ in self.int_aliases + self.byte_aliases)
-				if is_alias and not aligned_parent:
-					# catparser/generators/util.py cannot process arrays of aliases in unaligned structs
-					lines.insert(0, '@is_aligned')
-					aligned_parent = True
 				count_name = self.rng.choice([f'items{index}_count', f'num_items{index}'])
 				lines.append(f'\t{count_name} = {self.rng.choice(UNSIGNED[:3])}')
 				if keys and self.rng.random() < 0.6:
